@@ -25,6 +25,7 @@ DRIVER = 'Composite'
 REQUIRED_THEOREMS = [
     'embed', 'merge_union', 'deepMerge_lookup', 'merge_leaves_source_unchanged',
     'no_alias', 'later_merges_leave_others_unchanged', 'entry_composite_eq_parts',
+    'entry_store_steps_only', 'merge_writes_only_target_region',
     'override_frame', 'override_reaches',
 ]
 ANCHORS = [
@@ -44,7 +45,8 @@ ANCHORS = [
 BUDGET = {'quick': 600, 'thorough': 6000}
 RULE = ('cases: scenarios of 1-5 probe processes/steps in 1-3 composites (Composite(config) / '
         'Composer.generate at a path / MetaComposer), 0-5 merge operations (other composite or none, '
-        'loose parts, path, schema override; one template merged several times), then one '
+        'loose parts — new dictionaries or another composite\'s own part dictionaries —, path, schema '
+        'override; one template merged several times), then one '
         'composite loaded through the three Engine entry points and run for 3 ticks, and the '
         'composer-built composite generated at root and at a path. ~12% malformed scenarios '
         '(process/step key clashes, overrides naming nothing, missing topology, overlapping '
@@ -55,9 +57,6 @@ TRUSTED = ['CPython dict/`id()` semantics (modelled as a heap of dict objects, n
 ASSUMPTIONS = [
     'probe processes have flat port schemas {port: {variable: {_default, _emit}}} and tuple topologies '
     '(no dict-valued topology, no glob ports, no variable path through a process node)',
-    'loose parts passed to merge are dictionaries not owned by another composite (see candidate '
-    'finding CF-A in notes/C16.md)',
-    'the store entry point is exercised on composites holding at least one non-step process (CF-B)',
     'Engine(composite=c, initial_state=x) is not combined with a non-empty c.state (F21)',
 ]
 CASE_TIMEOUT = 30.0
@@ -295,6 +294,15 @@ def gen_scenario(rng, malformed=False):
                     op[k] = loose[k]
             if rng.random() < 0.3:
                 op['state'] = g.state_for(loose)
+        if rng.random() < 0.2:
+            # loose parts that ARE another composite's part dictionaries (B.merge(processes=A.processes,
+            # topology=A.topology, ...)): repaired by 54c1ca0, judged by the oracle like any merge
+            src = rng.randrange(ncomps)
+            # consistent sets only: a topology/flow entry without its process is not a well-formed
+            # composite (get_topology()/get_flow() of the store cannot give it back)
+            for k in rng.choice([PARTS, PARTS, ['processes', 'topology', 'steps', 'flow'], ['state']]):
+                op.pop(k, None)
+                op[k + '_from'] = src
         # paths: mostly new ones, so that merged-in keys do not clash; sometimes the same again
         fresh = [p for p in MPATHS if p not in used_paths]
         op['path'] = rng.choice(fresh) if fresh and rng.random() < 0.8 else rng.choice(MPATHS)
@@ -353,7 +361,11 @@ def expected_parts(sc):
         o = comps[op['other']] if op.get('other') is not None else {k: {} for k in PARTS}
         o = copy.deepcopy(o)
         for k in PARTS:
-            m = union(o[k], pyd(op.get(k) or D()))
+            if op.get(k + '_from') is not None:
+                loose_k = copy.deepcopy(comps[op[k + '_from']][k])
+            else:
+                loose_k = pyd(op.get(k) or D())
+            m = union(o[k], loose_k)
             t[k] = union(t[k], nest_py(op.get('path', []), m))
         history.append(copy.deepcopy(comps))
     return history
@@ -502,7 +514,26 @@ def corpus():
            'ops': [{'target': 0, 'other': None, 'path': [], 'steps': D([['k0', 'S0']])},
                    {'target': 0, 'other': None, 'path': [], 'schema': D([['zz', D()]])}],
            'engine': None}
-    return [f15, emb, win, bad]
+    # CF-A (pre-fix witness of 54c1ca0): loose parts that are A's own dictionaries, then more into B
+    cfa = {'kind': 'scenario',
+           'procs': D([['P0', P(False)], ['P1', P(False)]]),
+           'comps': [
+               {'kind': 'config', 'processes': D([['g0', D([['k0', 'P0']])]]), 'topology': D([['g0', topo('k0', 'v0')]])},
+               {'kind': 'config'}],
+           'ops': [
+               {'target': 1, 'other': None, 'path': [], 'processes_from': 0, 'topology_from': 0},
+               {'target': 1, 'other': None, 'path': [], 'processes': D([['g0', D([['k1', 'P1']])]]),
+                'topology': D([['g0', topo('k1', 'v0')]])}],
+           'engine': {'comp': 1}}
+    # CF-B (pre-fix witness of 6deaef3): a steps-only composite through the three entry points
+    cfb = {'kind': 'scenario',
+           'procs': D([['S0', P(True)], ['S1', P(True, 3)]]),
+           'comps': [{'kind': 'config', 'steps': D([['k0', 'S0'], ['k1', 'S1']]),
+                      'flow': D([['k0', {'l': []}], ['k1', {'l': [{'l': ['k0']}]}]]),
+                      'topology': D([['k0', D([['a', {'l': ['v0']}]])], ['k1', D([['a', {'l': ['v0']}]])]])}],
+           'ops': [],
+           'engine': {'comp': 0, 'initial_state': D([['v0', D([['x', 7]])]])}}
+    return [f15, emb, win, bad, cfa, cfb]
 
 
 # ------------------------------------------------------------------ implementation side
@@ -778,10 +809,9 @@ def run_impl(case):
             now = {k: encp(c[k]) for k in PARTS}
             if sort_enc(now) != sort_enc(before[ci]):
                 fails.append(f'source-changed: merge #{oi} into composite {op["target"]} changed composite {ci}')
-        if not any(op.get(k + '_from') is not None for k in PARTS):
-            sh = shared_between_composites(ids)
-            if sh:
-                fails.append(f'alias: after merge #{oi} composites share a dict object: {sh[0]} and {sh[1]}')
+        sh = shared_between_composites(ids)
+        if sh:
+            fails.append(f'alias: after merge #{oi} composites share a dict object: {sh[0]} and {sh[1]}')
         for k, enc_before in loose_dicts.items():
             if sort_enc(encp(kwargs[k])) != sort_enc(enc_before):
                 fails.append(f'loose-changed: merge #{oi} changed the loose {k} it was given')
@@ -852,7 +882,8 @@ def run_impl(case):
         if sort_enc(now) != sort_enc(parts_before):
             fails.append('entry-points: loading the composite into engines changed the composite')
         # ---- oracle (iii)
-        n_procs = len(py_proc_paths(pyd(parts_before['processes'])))
+        n_procs = len(py_proc_paths(pyd(parts_before['processes']))) + \
+            len(py_proc_paths(pyd(parts_before['steps'])))
         if clash(pyd(parts_before['processes']), pyd(parts_before['steps'])):
             n_procs = 0    # a key holding a process and a step: merge reported it; not well-formed
         oks = {k: v for k, v in e_obs.items() if k != 'generated' and 'ok' in v}
@@ -865,8 +896,13 @@ def run_impl(case):
                                  f'{e_obs[k].get("err")}')
                     continue
                 a, b = e_obs['composite']['ok'], e_obs[k]['ok']
+                # topology / flow entries that name no process or step are not part of the comparison
+                holders = union(pyd(parts_before['processes']), pyd(parts_before['steps']))
                 for f in ('tree', 'processes', 'steps', 'flow', 'topology'):
-                    if prune(a[f]) != prune(b[f]):
+                    x, y = a[f], b[f]
+                    if f in ('flow', 'topology'):
+                        x, y = restrict(x, holders), restrict(y, holders)
+                    if prune(x) != prune(y):
                         fails.append(f'entry-points: {f} differs between Engine(composite=…) and '
                                      f'Engine({k}=…)')
                         break
@@ -918,6 +954,17 @@ def clash(a, b):
             else:
                 return True
     return False
+
+
+def restrict(j, holders):
+    """keep only the entries of an encoded topology/flow tree that sit at the path of a process"""
+    if not is_d(j) or not isinstance(holders, dict):
+        return j
+    out = []
+    for k, v in j['d']:
+        if k in holders:
+            out.append([k, restrict(v, holders[k]) if isinstance(holders[k], dict) else v])
+    return {'d': out}
 
 
 def strip_time(j):
@@ -1108,7 +1155,8 @@ def oracle(case, impl):
 
 
 def nontrivial(case, impl):
-    real = [op for op in case['ops'] if op.get('other') is not None or any(op.get(k) for k in PARTS)]
+    real = [op for op in case['ops'] if op.get('other') is not None or any(op.get(k) for k in PARTS)
+            or any(op.get(k + '_from') is not None for k in PARTS)]
     return bool(real) and bool(case.get('engine')) and isinstance(impl, dict) and \
         'engine' in impl.get('obs', {})
 
@@ -1135,6 +1183,8 @@ def stats(results):
                 kinds['self-merge'] += 1
             if op.get('schema'):
                 kinds['override'] += 1
+            if any(op.get(k + '_from') is not None for k in PARTS):
+                kinds['loose-from-composite'] += 1
         io = r['impl'].get('obs', {}) if isinstance(r['impl'], dict) else {}
         if 'create_err' in io:
             errs['create:' + io['create_err']] += 1
@@ -1159,6 +1209,13 @@ def shrink(case):
         c['engine'] = None
         yield c
     for i, op in enumerate(ops):
+        for k in [p + '_from' for p in PARTS]:
+            if op.get(k) is not None:
+                c = dict(case)
+                o = dict(op)
+                o.pop(k)
+                c['ops'] = ops[:i] + [o] + ops[i + 1:]
+                yield c
         for k in PARTS + ['schema']:
             if op.get(k):
                 c = dict(case)
@@ -1190,7 +1247,7 @@ LEVEL_TEXT = ('Lean 4 theorems, for all composites, paths and merge sequences (u
               'objects reachable from the target or newly allocated, so every other composite of a '
               'pairwise-separated pool is left untouched and the pool stays pairwise separated — by '
               'induction over arbitrary merge sequences (templates merged repeatedly, self-merges, loose '
-              'parts); the composite and parts entry points of _make_store compute the same tuple; '
+              'parts that are new dictionaries or another pool composite\'s own part dictionaries); the composite and parts entry points of _make_store compute the same tuple; '
               'schema overrides change exactly the named processes. Model tied to the code by '
               'differential runs incl. id()-graphs of the dict objects and the stores each entry point builds.')
 LEVEL_NOTE = ('Trusted: Lean kernel; axioms ⊆ {propext, Classical.choice, Quot.sound}; hand-written models of '
